@@ -61,3 +61,37 @@ Theorem C09_positional_or_keyword : forall c q a b,
             = Ok (t, cond_map pyval arg1 ALit (CLeaf (expected_leaf c q))).
 Proof. exact C09_leaf_positional. Qed.
 Print Assumptions C09_positional_or_keyword.
+
+(* ---- nested arguments: a ONE-parameter callable whose argument is a list with data-path specs among its items, or a mapping with
+   data-path specs among its values (NestedSpell.v: the spec spelling; NestedIO.v: the parser instance that keeps nested paths).
+   The spec, under any accepted spelling of its key (letter case, aliases), parses to exactly the condition the DSL builds from the
+   term (up to path_back of the paths, which is == ).  A tuple argument holding a path spec is rejected by from_spec (TypeError:
+   counterexample proved in Proofs/C09NestedProof.v); under a dtype class every argument is read as a type name (known finding D12). *)
+From Valida Require Import NestedArgs NestedIO NestedSpell.
+From Valida.Proofs Require Import C11Proof C11EscProof C12Proof C11PathProof C11NestedProof C11NestedFullProof C13NestedProof C09NestedProof.
+
+Theorem C09_nested_leaf : forall c q n key,
+  class_ok c q = true -> casts c q = false -> q_form q = FOne (VObj 0%N) -> narg_ok n -> spells key c q ->
+  condn_from_spec (VDict [(VStr key, narg_spec n)]) = Ok (nleaf_term c q (back_n n), CLeaf (nleaf [back_n n] c q)) /\
+  build_n (nleaf_term c q n) = Ok (CLeaf (nleaf [n] c q)) /\
+  build_n (nleaf_term c q (back_n n)) = Ok (CLeaf (nleaf [back_n n] c q)) /\
+  condn_eqb (CLeaf (nleaf [back_n n] c q)) (CLeaf (nleaf [n] c q)) = true.
+Proof. exact C09N_leaf. Qed.
+
+Theorem C09_nested_tree : forall nas t,
+  tree_in_c11n nas t ->
+  exists tm,
+    condn_from_spec (ntree_spec nas t) = Ok (tm, condn_back nas t) /\
+    build_n (ntree_term nas t) = Ok (condn_of nas t) /\
+    condn_eqb (condn_back nas t) (condn_of nas t) = true.
+Proof. exact C09N_tree. Qed.
+
+(* mixed trees: nested leaves next to literal leaves and to leaves whose arguments are data paths *)
+Theorem C09_nested_mixed_tree : forall pts ns t,
+  Forall path_good pts ->
+  Forall (fun cq => leaf_in_c11n_full pts ns (fst cq) (snd cq)) (qleaves t) -> tree_depth t <= 40 ->
+  qmixed (qnorm t) = false ->
+  let nas := (embp pts ++ ns)%list in
+  run_c09n (ntree_spec_full pts ns t) (ntree_term nas t) = Ok (VBool true).
+Proof. exact C09N_tree_full. Qed.
+Print Assumptions C09_nested_leaf. Print Assumptions C09_nested_tree. Print Assumptions C09_nested_mixed_tree.
